@@ -34,11 +34,14 @@ macro_rules! fixed_cmp_fixed {
                     Self::FRAC_NBITS,
                     Self::INT_NBITS,
                 );
-                let rhs_bits = match conv.bits {
-                    Widest::Unsigned(bits) => bits as <Self as Fixed>::Bits,
-                    Widest::Negative(bits) => bits as <Self as Fixed>::Bits,
+                let (rhs_is_neg, rhs_bits) = match conv.bits {
+                    Widest::Unsigned(bits) => (false, bits as <Self as Fixed>::Bits),
+                    Widest::Negative(bits) => (true, bits as <Self as Fixed>::Bits),
                 };
-                conv.dir == Ordering::Equal && !conv.overflow && rhs_bits == self.to_bits()
+                conv.dir == Ordering::Equal
+                    && !conv.overflow
+                    && rhs_bits.is_negative() == rhs_is_neg
+                    && rhs_bits == self.to_bits()
             }
         }
 
@@ -55,17 +58,18 @@ macro_rules! fixed_cmp_fixed {
                     Self::FRAC_NBITS,
                     Self::INT_NBITS,
                 );
-                if conv.overflow {
-                    return if rhs.to_bits().is_negative() {
+                let (rhs_is_neg, rhs_bits) = match conv.bits {
+                    Widest::Unsigned(bits) => (false, bits as <Self as Fixed>::Bits),
+                    Widest::Negative(bits) => (true, bits as <Self as Fixed>::Bits),
+                };
+                // a non-negative value that lands on the sign bit of a signed lhs does not fit either
+                if conv.overflow || rhs_bits.is_negative() != rhs_is_neg {
+                    return if rhs_is_neg {
                         Some(Ordering::Greater)
                     } else {
                         Some(Ordering::Less)
                     };
                 }
-                let rhs_bits = match conv.bits {
-                    Widest::Unsigned(bits) => bits as <Self as Fixed>::Bits,
-                    Widest::Negative(bits) => bits as <Self as Fixed>::Bits,
-                };
                 Some(self.to_bits().cmp(&rhs_bits).then(conv.dir))
             }
 
@@ -81,13 +85,13 @@ macro_rules! fixed_cmp_fixed {
                     Self::FRAC_NBITS,
                     Self::INT_NBITS,
                 );
-                if conv.overflow {
-                    return !rhs.to_bits().is_negative();
-                }
-                let rhs_bits = match conv.bits {
-                    Widest::Unsigned(bits) => bits as <Self as Fixed>::Bits,
-                    Widest::Negative(bits) => bits as <Self as Fixed>::Bits,
+                let (rhs_is_neg, rhs_bits) = match conv.bits {
+                    Widest::Unsigned(bits) => (false, bits as <Self as Fixed>::Bits),
+                    Widest::Negative(bits) => (true, bits as <Self as Fixed>::Bits),
                 };
+                if conv.overflow || rhs_bits.is_negative() != rhs_is_neg {
+                    return !rhs_is_neg;
+                }
                 self.to_bits() < rhs_bits
                     || (self.to_bits() == rhs_bits && conv.dir == Ordering::Less)
             }
